@@ -19,7 +19,7 @@ RULE = ('Hypothesis resampling problems described by parameters (the arrays are 
         'Non-trivial = interior zero-run, output grid extending beyond the data, >= 20 output pixels with ivar > 0.')
 ASSUMPTIONS = ['preprocess_spectra derives its own output grid only from a shared 1-D loglam (2-D loglam is always accompanied by newloglam, as in template_input)',
                'the harness installs an SPPIXMASK table in the maskbits cache (the official file cannot be downloaded offline)',
-               'output grids are either bit-identical to input pixels or offset by >= 0.01 pixel: an exact hit on a good pixel whose two neighbours are bad may be zero or not',
+               'an output wavelength within 1e-6 pixel of an input pixel is a hit on that pixel; a hit on a good pixel whose two neighbours are bad may be zero or not',
                'for stacked exposures the zero rule is applied per exposure (an output pixel may be non-zero if some exposure brackets it with two good pixels); the value rule is asserted for single spectra only',
                'flux reproduction tolerance on noise-free smooth families: 2e-3 of the amplitude (B-spline interpolation accuracy), constants 1e-8; scaling 1e-7',
                'stacked exposures keep >= 101 good pixels each (the built-in variance smoothing assumes it)',
@@ -113,18 +113,26 @@ def build(case):
 
 
 def allowed_nonzero(ll, good, nl):
-    """+1 may be non-zero, 0 either (exact hit on an isolated good pixel), -1 must be zero"""
+    """+1 may be non-zero, 0 either (hit on an isolated good pixel), -1 must be zero.
+    An output wavelength within 1e-6 pixel of an input pixel counts as a hit on that pixel (combine1fiber itself treats
+    anything closer than float32 eps of a pixel as on it)."""
     n = len(ll)
     out = np.full(len(nl), -1)
+    step = abs(ll[1] - ll[0])
     idx = np.searchsorted(ll, nl, side='right') - 1
     for j, (i, lam) in enumerate(zip(idx, nl)):
-        if i < 0 or i >= n:
-            continue
-        if lam == ll[i]:
-            if good[i]:
-                nb = (i > 0 and good[i - 1]) or (i < n - 1 and good[i + 1])
+        near = None
+        for k in (i, i + 1):
+            if 0 <= k < n and abs(lam - ll[k]) <= 1e-6 * step:
+                near = k
+        if near is not None:
+            if good[near]:
+                nb = (near > 0 and good[near - 1]) or (near < n - 1 and good[near + 1])
                 out[j] = 1 if nb else 0
-        elif i < n - 1 and good[i] and good[i + 1]:
+            continue
+        if i < 0 or i >= n - 1:
+            continue
+        if good[i] and good[i + 1]:
             out[j] = 1
     return out
 
